@@ -27,6 +27,7 @@ Inductive stim :=
 | SDisc (s : sock)                 (* _disconnect(s) dispatched to the server *)
 | SWrite (s : sock) (n : N)        (* write(s, data) dispatched, len data = n — possibly long after s was disconnected *)
 | SClose (s : sock)                (* close(s) dispatched — possibly late *)
+| SCloseAll                        (* close() dispatched: close the listening socket and every client *)
 | SSnap.                           (* harness only: look at the tables *)
 
 Inductive ev := EConnect (s : sock) | ERead (s : sock) (d : list N) | EError (s : sock) | EDisconnect (s : sock).
@@ -39,12 +40,15 @@ Record st := mk {
   rd : list sock;                   (* poller._read     (python list; listening socket and control pipe left out) *)
   wr : list sock;                   (* poller._write *)
   tg : list sock;                   (* keys of poller._targets (dict) *)
-  mp : list sock                    (* values of Poll/EPoll._map (dict fileno -> object); [] for Select *)
+  mp : list sock;                   (* values of Poll/EPoll._map (dict fileno -> object); [] for Select *)
+  lis : bool                        (* Server._sock is not None: the listening socket is open and registered *)
 }.
 
-Inductive out := OEv (e : ev) | OCall (c : call) | OSnap (x : st).
+(* server-wide events: disconnect(listening socket) and closed() *)
+Inductive srvev := VListenDown | VClosed.
+Inductive out := OEv (e : ev) | OCall (c : call) | OSnap (x : st) | OSrv (v : srvev).
 
-Definition init : st := mk [] [] [] [] [] [] [].
+Definition init : st := mk [] [] [] [] [] [] [] true.
 
 (* ---- python containers *)
 Definition mem (x : nat) (l : list nat) : bool := existsb (Nat.eqb x) l.
@@ -62,36 +66,37 @@ Definition bset (s : sock) (v : list N) (b : list (sock * list N)) := (s, v) :: 
 Definition btouch (s : sock) (b : list (sock * list N)) := if bhas s b then b else (s, []) :: b.
 Definition isnil {A} (l : list A) : bool := match l with [] => true | _ => false end.
 
-Definition set_clients v x := mk v x.(bufs) x.(closeq) x.(rd) x.(wr) x.(tg) x.(mp).
-Definition set_bufs v x := mk x.(clients) v x.(closeq) x.(rd) x.(wr) x.(tg) x.(mp).
-Definition set_closeq v x := mk x.(clients) x.(bufs) v x.(rd) x.(wr) x.(tg) x.(mp).
+Definition set_clients v x := mk v x.(bufs) x.(closeq) x.(rd) x.(wr) x.(tg) x.(mp) x.(lis).
+Definition set_bufs v x := mk x.(clients) v x.(closeq) x.(rd) x.(wr) x.(tg) x.(mp) x.(lis).
+Definition set_closeq v x := mk x.(clients) x.(bufs) v x.(rd) x.(wr) x.(tg) x.(mp) x.(lis).
+Definition set_lis v x := mk x.(clients) x.(bufs) x.(closeq) x.(rd) x.(wr) x.(tg) x.(mp) v.
 
 (* ---- poller (BasePoller lists + Poll/EPoll registration map; hm = the poller has a _map) *)
 (* _updateRegistration; Select has none: its _map stays [] and `del` on it is the identity *)
 Definition upd (hm : bool) (s : sock) (x : st) : st :=
   if mem s x.(rd) || mem s x.(wr)
-  then mk x.(clients) x.(bufs) x.(closeq) x.(rd) x.(wr) x.(tg) (if hm then add s x.(mp) else x.(mp))
-  else mk x.(clients) x.(bufs) x.(closeq) x.(rd) x.(wr) (if hm then del s x.(tg) else x.(tg)) (del s x.(mp)).
+  then mk x.(clients) x.(bufs) x.(closeq) x.(rd) x.(wr) x.(tg) (if hm then add s x.(mp) else x.(mp)) x.(lis)
+  else mk x.(clients) x.(bufs) x.(closeq) x.(rd) x.(wr) (if hm then del s x.(tg) else x.(tg)) (del s x.(mp)) x.(lis).
 Definition addReader hm s x :=
-  upd hm s (mk x.(clients) x.(bufs) x.(closeq) (x.(rd) ++ [s]) x.(wr) (add s x.(tg)) x.(mp)).
+  upd hm s (mk x.(clients) x.(bufs) x.(closeq) (x.(rd) ++ [s]) x.(wr) (add s x.(tg)) x.(mp) x.(lis)).
 Definition addWriter hm s x :=
-  upd hm s (mk x.(clients) x.(bufs) x.(closeq) x.(rd) (x.(wr) ++ [s]) (add s x.(tg)) x.(mp)).
+  upd hm s (mk x.(clients) x.(bufs) x.(closeq) x.(rd) (x.(wr) ++ [s]) (add s x.(tg)) x.(mp) x.(lis)).
 Definition removeWriter hm s x :=
   let w := remove1 s x.(wr) in
   upd hm s (mk x.(clients) x.(bufs) x.(closeq) x.(rd) w
-               (if mem s x.(rd) || mem s w then x.(tg) else del s x.(tg)) x.(mp)).
+               (if mem s x.(rd) || mem s w then x.(tg) else del s x.(tg)) x.(mp) x.(lis)).
 Definition discard hm s x :=
-  upd hm s (mk x.(clients) x.(bufs) x.(closeq) (remove1 s x.(rd)) (remove1 s x.(wr)) (del s x.(tg)) x.(mp)).
+  upd hm s (mk x.(clients) x.(bufs) x.(closeq) (remove1 s x.(rd)) (remove1 s x.(wr)) (del s x.(tg)) x.(mp) x.(lis)).
 (* Poll/EPoll._process on hang-up: BasePoller.discard + del _map[fileno] *)
 Definition pdrop (s : sock) (x : st) : st :=
-  mk x.(clients) x.(bufs) x.(closeq) (remove1 s x.(rd)) (remove1 s x.(wr)) (del s x.(tg)) (del s x.(mp)).
+  mk x.(clients) x.(bufs) x.(closeq) (remove1 s x.(rd)) (remove1 s x.(wr)) (del s x.(tg)) (del s x.(mp)) x.(lis).
 
 (* ---- Server *)
 (* Server._close(sock) *)
 Definition do__close (hm : bool) (s : sock) (x : st) : st * list out :=
   if negb (mem s x.(clients)) then (x, []) else
   let x1 := discard hm s x in
-  (mk (remove1 s x1.(clients)) (bdel s x1.(bufs)) (remove1 s x1.(closeq)) x1.(rd) x1.(wr) x1.(tg) x1.(mp),
+  (mk (remove1 s x1.(clients)) (bdel s x1.(bufs)) (remove1 s x1.(closeq)) x1.(rd) x1.(wr) x1.(tg) x1.(mp) x1.(lis),
    [OEv (EDisconnect s)]).
 
 (* Server.close(sock), sock given (handler and direct call from _read) *)
@@ -151,6 +156,15 @@ Definition on_accept (hm : bool) (s : sock) (gone : bool) (x : st) : st * list o
   if gone then let '(x3, o) := do__close hm s x2 in (x3, OEv (EError s) :: o)
   else (x2, [OEv (EConnect s)]).
 
+(* Server.close() without socket: socks = [self._sock] + self._clients[:]; the (open) listening socket is closed
+   at once (nothing is ever buffered for it), each client as by close(sock); then closed() is fired *)
+Definition close_each (hm : bool) (l : list sock) (x : st) : st * list out :=
+  fold_left (fun (a : st * list out) s => let '(y, o) := a in let '(y', o') := do_close hm s y in (y', o ++ o'))
+            l (x, []).
+Definition close_all (hm : bool) (x : st) : st * list out :=
+  let '(x2, o2) := close_each hm x.(clients) (set_lis false x) in
+  (x2, (if x.(lis) then [OSrv VListenDown] else []) ++ o2 ++ [OSrv VClosed]).
+
 Definition step (hm : bool) (x : st) (i : stim) : st * list out :=
   match i with
   | SAccept s => on_accept hm s false x
@@ -161,6 +175,7 @@ Definition step (hm : bool) (x : st) (i : stim) : st * list out :=
   | SDisc s => do__close hm s x
   | SWrite s n => on_write_req hm s n x
   | SClose s => do_close hm s x
+  | SCloseAll => close_all hm x
   | SSnap => (x, [OSnap x])
   end.
 
@@ -217,35 +232,80 @@ Definition no_state (s : sock) (x : st) : Prop :=
   ~ In s x.(clients) /\ ~ In s (map fst x.(bufs)) /\ ~ In s x.(closeq) /\
   ~ In s x.(rd) /\ ~ In s x.(wr) /\ ~ In s x.(tg) /\ ~ In s x.(mp).
 
+(* ---- one socket's share of the state, and which stimuli concern it (for the isolation theorem) *)
+Record row := mkrow { r_client : bool; r_buf : list N; r_key : bool; r_closeq : bool;
+                      r_rd : bool; r_wr : bool; r_tg : bool; r_mp : bool }.
+Definition row_of (s : sock) (x : st) : row :=
+  mkrow (mem s x.(clients)) (bget s x.(bufs)) (bhas s x.(bufs)) (mem s x.(closeq))
+        (mem s x.(rd)) (mem s x.(wr)) (mem s x.(tg)) (mem s x.(mp)).
+Definition touches (s : sock) (i : stim) : bool :=
+  match i with
+  | SAccept t | SAcceptGone t | SRead t _ | SWritable t _ | SDrop t | SDisc t | SWrite t _ | SClose t => Nat.eqb s t
+  | SCloseAll => true
+  | SSnap => false
+  end.
+(* kernel calls made on socket s *)
+Definition call_of (s : sock) (o : out) : list call :=
+  match o with
+  | OCall (CRecv s' r) => if Nat.eqb s s' then [CRecv s' r] else []
+  | OCall (CSend s' n) => if Nat.eqb s s' then [CSend s' n] else []
+  | _ => []
+  end.
+Definition calls (s : sock) (os : list out) : list call := flat_map (call_of s) os.
+
+(* ---- terminal stimuli: the kernel / the application says that s is finished, and nothing is left to flush *)
+Definition terminal (s : sock) (x : st) (i : stim) : bool :=
+  match i with
+  | SRead t RErr => Nat.eqb s t                                           (* reset: recv() raises *)
+  | SRead t REof | SRead t (RData []) => Nat.eqb s t && isnil (bget s x.(bufs))   (* EOF, nothing buffered *)
+  | SWritable t WFatal => Nat.eqb s t && negb (isnil (bget s x.(bufs)))   (* a send() is made and fails fatally *)
+  | SWritable t (WAcc k) =>                                               (* the last buffered payload is flushed and a close was deferred *)
+      Nat.eqb s t && mem s x.(closeq) &&
+      match bget s x.(bufs) with [n] => negb (N.ltb k n) | _ => false end
+  | SDisc t => Nat.eqb s t                                                (* poller hang-up *)
+  | SClose t => Nat.eqb s t && isnil (bget s x.(bufs))                    (* close(s), nothing buffered *)
+  | _ => false
+  end.
+(* EOF or close(s) while output is still buffered: the close is deferred *)
+Definition deferring (s : sock) (x : st) (i : stim) : bool :=
+  match i with
+  | SRead t REof | SRead t (RData []) | SClose t => Nat.eqb s t && negb (isnil (bget s x.(bufs)))
+  | _ => false
+  end.
+
 (* ================================================================================================
    Client (circuits.net.sockets.Client / TCPClient / UNIXClient): the connected flag, the write buffer
    (emptiness only), the deferred-close flag. *)
 Inductive cstim :=
-| KConnect (ok : bool)             (* connect handler; ok = the connection was established *)
+| KConnect (ok : bool) (fresh : bool)   (* connect handler; ok = the connection was established; fresh = the handler
+                                     replaced a closed socket by a new one (TCPClient does, UNIXClient does not) *)
 | KRead (r : rres)                 (* _read: recv answers r *)
 | KWritable (w : wres) (closes : bool)   (* _write: send answers w; closes = a non-EPIPE fatal error also closes
-                                            (true with fixes/C11_client_fatal_close.patch, false without) *)
+                                            (true since fixes/C11_client_fatal_close.patch; the theorems hold for both) *)
 | KPipe                            (* _write: send raises EPIPE / ENOTCONN *)
 | KDisc                            (* _disconnect from the poller *)
-| KWrite (n : N)                   (* write(data), len data = n *)
-| KClose.                          (* close() *)
-Inductive cev := KConnected | KDisconnected | KErr | KData (d : list N).
-Record cst := cmk { conn : bool; pending : list N; closeflag : bool }.
-Definition cinit := cmk false [] false.
+| KWrite (n : N)                   (* write(data), len data = n — possibly after the disconnect *)
+| KClose.                          (* close() — possibly after the disconnect *)
+Inductive cev := KConnected | KDisconnected | KErr | KData (d : list N) | KSend (n : N).   (* KSend = a send() call *)
+(* sopen: self._sock is an open socket object (false from _close until a connect makes a new one) *)
+Record cst := cmk { conn : bool; pending : list N; closeflag : bool; sopen : bool }.
+Definition cinit := cmk false [] false true.
 
 (* Client._close *)
 Definition c__close (x : cst) : cst * list cev :=
-  if x.(conn) then (cmk false [] false, [KDisconnected]) else (x, []).
+  if x.(conn) then (cmk false [] false false, [KDisconnected]) else (x, []).
 (* Client.close *)
 Definition c_close (x : cst) : cst * list cev :=
-  match x.(pending) with [] => c__close x | _ => (cmk x.(conn) x.(pending) true, []) end.
+  match x.(pending) with [] => c__close x | _ => (cmk x.(conn) x.(pending) true x.(sopen), []) end.
 (* second half of Client.__on_write *)
 Definition c_drained (x : cst) : cst * list cev :=
   match x.(pending) with [] => if x.(closeflag) then c__close x else (x, []) | _ => (x, []) end.
 
 Definition cstep (x : cst) (i : cstim) : cst * list cev :=
   match i with
-  | KConnect ok => if ok then (cmk true x.(pending) x.(closeflag), [KConnected]) else (x, [])
+  | KConnect ok fresh =>
+      if ok then (cmk true x.(pending) x.(closeflag) true, [KConnected])
+      else (cmk x.(conn) x.(pending) x.(closeflag) (x.(sopen) || fresh), [])
   | KRead (RData ((_ :: _) as d)) => (x, [KData d])
   | KRead (RData []) | KRead REof => c_close x
   | KRead RWould => (x, [])
@@ -255,22 +315,24 @@ Definition cstep (x : cst) (i : cstim) : cst * list cev :=
       | [] => c_drained x
       | n :: rest =>
           match w with
-          | WAcc k => c_drained (cmk x.(conn) (if N.ltb k n then N.sub n k :: rest else rest) x.(closeflag))
-          | WTrans => c_drained (cmk x.(conn) (n :: rest) x.(closeflag))
+          | WAcc k => let '(x', o) := c_drained (cmk x.(conn) (if N.ltb k n then N.sub n k :: rest else rest)
+                                                     x.(closeflag) x.(sopen)) in (x', KSend n :: o)
+          | WTrans => let '(x', o) := c_drained (cmk x.(conn) (n :: rest) x.(closeflag) x.(sopen)) in (x', KSend n :: o)
           | WFatal =>
-              let x1 := cmk x.(conn) rest x.(closeflag) in
+              let x1 := cmk x.(conn) rest x.(closeflag) x.(sopen) in
               let '(x2, o) := if closes then c__close x1 else (x1, []) in
-              let '(x3, o3) := c_drained x2 in (x3, KErr :: o ++ o3)
+              let '(x3, o3) := c_drained x2 in (x3, KSend n :: KErr :: o ++ o3)
           end
       end
   | KPipe =>
       match x.(pending) with
       | [] => c_drained x
-      | n :: rest => let '(x2, o) := c__close (cmk x.(conn) rest x.(closeflag)) in
-                     let '(x3, o3) := c_drained x2 in (x3, o ++ o3)
+      | n :: rest => let '(x2, o) := c__close (cmk x.(conn) rest x.(closeflag) x.(sopen)) in
+                     let '(x3, o3) := c_drained x2 in (x3, KSend n :: o ++ o3)
       end
   | KDisc => c__close x
-  | KWrite n => (cmk x.(conn) (x.(pending) ++ [n]) x.(closeflag), [])
+  | KWrite n =>      (* fixes/C12_client_late_write.patch: a write to the closed socket is dropped *)
+      if x.(sopen) then (cmk x.(conn) (x.(pending) ++ [n]) x.(closeflag) x.(sopen), []) else (x, [])
   | KClose => c_close x
   end.
 
@@ -280,9 +342,12 @@ Definition crun (h : list cstim) := crun_from cinit [] h.
 
 Definition is_kconn (e : cev) := match e with KConnected => true | _ => false end.
 Definition is_kdisc (e : cev) := match e with KDisconnected => true | _ => false end.
+Definition is_ksend (e : cev) := match e with KSend _ => true | _ => false end.
+(* "after disconnected": not connected, socket closed, nothing buffered, no deferred close *)
+Definition cdown (x : cst) : Prop := x.(conn) = false /\ x.(pending) = [] /\ x.(closeflag) = false.
 (* API precondition: connect is not requested while connected *)
 Fixpoint connect_when_down (x : cst) (h : list cstim) : bool :=
   match h with
   | [] => true
-  | i :: t => (match i with KConnect _ => negb x.(conn) | _ => true end) && connect_when_down (fst (cstep x i)) t
+  | i :: t => (match i with KConnect _ _ => negb x.(conn) | _ => true end) && connect_when_down (fst (cstep x i)) t
   end.
